@@ -73,3 +73,11 @@ REG["C06"] = {
                    "the real validator must accept each output; refused runs must leave no file-system mutation."),
     "level_note": _NOTE,
 }
+
+REG["C11"] = {
+    "technique": "TLC model checking of Chef.tla (sequential knives, offset-sorted box map, header writers, serial/parallel with all completion orders; refinement of CookSpec as per-box sets of (name, component) and extrema rows) + replay into the real Chef with user, callable, solution-array and built-in (HRR, ENT, SRi, SDi, RRi) recipes; recipe symbols interpreted independently (numpy bit-exact / scalar cantera rtol 1e-9)",
+    "level_text": ("All layouts of <=3 boxes over <=3 files (every disk order), 1-2 levels, 1- and 2-component recipes, kept lists (none, one, two, reordered, with unknown), serial and parallel with every "
+                   "completion order are model-checked and replayed; every written component is identified (kept: by digest, new: by independent evaluation) under the name the header gives it, "
+                   "min/max rows are compared with the true extrema of the written bytes, the real validator must accept the output."),
+    "level_note": _NOTE + " Cantera's numerical value of a property is outside the model (uninterpreted symbol).",
+}
